@@ -15,7 +15,14 @@ from .. import common
 from ..framework import Exploration, Violation
 from . import c09_typed as typed
 
-ASSUMPTIONS = ["each structured program is rendered as Python source twice and exec'd in the worker: with the library's constructs "
+ASSUMPTIONS = ["context lookup: besides the default rendering (local `_`, every call with `ctx=_`) programs are rendered as FUNCTIONS whose own context has "
+               "the local name `__` / `ctx2` / `bv` / `_` and whose block calls carry NO `ctx=` (the library finds the context in the caller's frame), "
+               "defined in a module that has / has not a global context `_` of its own (as in examples/branch2.py; it holds plain values under the "
+               "same variable names), and called by module-level code from inside a taken / not-taken `_if` block of that module context (which then "
+               "holds a secret of its own); controls with `ctx=` passed; the function's final variables are compared with the native twin as for "
+               "every program, the module context must end with its own values and no open block; the called-inside-a-block form adds wires "
+               "of the module-level code and is judged by the direct oracle only (harness/props/c09.py CTX_MODES, harness/worker_block.py CTX)",
+               "each structured program is rendered as Python source twice and exec'd in the worker: with the library's constructs "
                "(_if/_elif/_else/_endif, _range/_endfor, _while/_breakif/_endwhile, if_then_else with values and with callables) on secret values — "
                "`while _while(c, ctx=_) and k < M:` on one line, ctx passed explicitly — and with native control flow on plain values; the Lean "
                "model interprets the same program (sent as prefix-notation text) and decides statically which `_while` call opens a loop "
@@ -520,6 +527,24 @@ RAW_PROBE = {"init": {"x0": 3}, "secret_vars": ["x0"], "inputs": [1], "rawcond":
              "body": [["if", [[["eq", ["in", 0], ["const", 1]], [["assign", "x0", ["add", ["var", "x0"], ["const", 1]]]]]], None]]}
 
 
+# how a program names and finds its context (harness/worker_block.py CTX): the default is the local `_` passed as `ctx=_` to every call
+CTX_MODES = [{"name": "__", "ctx_arg": False, "module_ctx": True}, {"name": "ctx2", "ctx_arg": False, "module_ctx": True},
+             {"name": "bv", "ctx_arg": False, "module_ctx": True}, {"name": "__", "ctx_arg": False, "module_ctx": False},
+             {"name": "_", "ctx_arg": False, "module_ctx": True}, {"name": "_", "ctx_arg": False, "module_ctx": False},
+             {"name": "ctx2", "ctx_arg": True, "module_ctx": True},
+             {"name": "__", "ctx_arg": False, "nested": 1}, {"name": "ctx2", "ctx_arg": False, "nested": 1},
+             {"name": "_", "ctx_arg": False, "nested": 1}, {"name": "bv", "ctx_arg": True, "nested": 1}]
+
+
+def ctx_label(p):
+    cm = p.get("ctxmode")
+    if not cm:
+        return None
+    name = "underscore" if cm["name"] == "_" else "other-local-name"
+    return (f"{name}:{'ctx-argument' if cm.get('ctx_arg') else 'found-in-caller-frame'}:"
+            + ("called-inside-block-of-module-context" if "nested" in cm else "module-has-own-context" if cm.get("module_ctx") else "no-module-context"))
+
+
 # ------------------------------------------------------------------ exploration
 def explore(ctx, extended=False, focus=None):
     ex = Exploration()
@@ -559,6 +584,22 @@ def explore(ctx, extended=False, focus=None):
         p = typed.gen_lenchange(lrnd, typed.LEN_FORMS[k] if k < len(typed.LEN_FORMS) else None)      # every shape at least once
         fix_for_bounds(p, lrnd)
         progs_.append(p)
+    # programs that are FUNCTIONS with their own context under a local name, block calls WITHOUT `ctx=` (the library finds the context in
+    # the caller's frame), in a module that may have a global context `_` of its own (examples/branch2.py), possibly called from inside an
+    # open block of that module context: own random stream, after everything else
+    crnd = random.Random(ctx.seed * 7919 + 23 + (1 if extended else 0))
+    base = [json.loads(json.dumps(t)) for t in templates(crnd)]
+    for k in range(max(len(CTX_MODES) * 2, n // 6)):
+        if k < len(CTX_MODES) * 2:
+            p = json.loads(json.dumps(base[k % len(base)])); cm = dict(CTX_MODES[k % len(CTX_MODES)])
+        else:
+            p = typed.gen_typed(crnd) if crnd.random() < 0.3 else gen_prog(crnd, "valid")
+            cm = dict(crnd.choice(CTX_MODES))
+        if "nested" in cm and crnd.random() < 0.2:
+            cm["nested"] = 0
+        fix_for_bounds(p, crnd)
+        p["ctxmode"] = cm
+        progs_.append(p)
     lines = [f"B|b{i}|16|{json.dumps(p)}" for i, p in enumerate(progs_)]
     # the same program text on two more vectors of secret values (inputs and initial values re-drawn, so conditions flip and
     # branch values coincide or not): the constraint system and the wire expression of every final variable must not change
@@ -573,7 +614,7 @@ def explore(ctx, extended=False, focus=None):
     outs = common.run_workers(lines, script="worker_block.py")
     outs2 = common.run_workers(lines2, script="worker_block.py")
     # `checkstopmax=True` is outside the Lean statement language: those programs are judged by the direct oracle only
-    modelled = [i for i, p in enumerate(progs_) if not uses(p, '"checkstopmax"')]
+    modelled = [i for i, p in enumerate(progs_) if not uses(p, '"checkstopmax"') and "nested" not in (p.get("ctxmode") or {})]
     okb, outb, _ = common.lake_build(["PysnarkModel.Driver.ProtoBlock"])      # the driver module of this property (no-op when up to date)
     if not okb:
         # the model (or its driver) no longer builds: the tie is broken; the direct oracle still runs
@@ -646,6 +687,8 @@ def explore(ctx, extended=False, focus=None):
         if mo is None:
             if uses(p, '"checkstopmax"'):
                 ex.unmodelled += 1; ex.count("construct:for-checkstopmax")
+            elif "nested" in (p.get("ctxmode") or {}):
+                ex.unmodelled += 1
         elif m["status"] == "err:UNMODELLED":
             ex.unmodelled += 1
         else:
@@ -694,6 +737,20 @@ def explore(ctx, extended=False, focus=None):
             sig["feature"] = p["feature"]
         if p.get("typed"):
             sig["typed"] = True
+        if p.get("ctxmode"):
+            sig["context"] = ctx_label(p); ex.count("context:" + sig["context"])
+            rep["context"] = p["ctxmode"]
+            mc = api.get("module_ctx")
+            if api["status"] == "ok" and mc is not None and not mc["ok"]:
+                ex.violations.append(Violation(dict(sig, dev="module-context-changed"),
+                                               f"the function's blocks worked on its own context `{p['ctxmode']['name']}`, but the MODULE's context `_` ends with "
+                                               f"{mc['vars']} (expected {mc['want']}), open blocks {mc['stack']}", rep))
+            if p["ctxmode"].get("nested") == 0:
+                # the function ran inside a block of the module context that is NOT taken: its values are dead; only the module context
+                # (above) and the bookkeeping are judged
+                if api["status"] == "ok" and (api.get("stack") or api.get("guard")):
+                    ex.violations.append(Violation(dict(sig, dev="dangling-guard"), "after the program a guard / an open block context is left behind", rep))
+                continue
         if nat["status"] == "ok" and api["status"] == "ValueError" and re.search(r"is not a \d+-bit integer", api.get("msg", "")):
             ex.count("out-of-domain:comparison-operand-exceeds-bitlength")      # the library's documented range check, not a deviation
             continue
@@ -749,6 +806,10 @@ def explore(ctx, extended=False, focus=None):
                                                f"{str(a2['var_lcs'].get(k))[:80]}", dict(rep, **other)))
             # the native twin on the second vector as well
             n2 = d2.get("native", {})
+            mc2 = a2.get("module_ctx")
+            if mc2 is not None and not mc2["ok"]:
+                ex.violations.append(Violation(dict(sig, dev="module-context-changed"),
+                                               f"on a second input vector the MODULE's context `_` ends with {mc2['vars']} (expected {mc2['want']})", dict(rep, program=tw)))
             if n2.get("status") == "ok" and (n2["num"] != a2["num"] or n2["refs"] != a2["refs"]) and not p.get("feature"):
                 k = next((k for k in n2["num"] if a2["num"].get(k) != n2["num"][k]), "ref")
                 ex.violations.append(Violation(dict(sig, dev="wrong-value"),
